@@ -328,8 +328,11 @@ func c18PackageOnce(c *fw.Ctx, id string, srcs map[string]string, withImporter b
 					return p, nil
 				}
 				p := ast.NewObj(ast.Pkg, filepath.Base(path))
-				s := ast.NewScope(nil)
+				s := ast.NewScope(auni) // nested in the universe; "empty" packages export nothing
 				for _, m := range members {
+					if strings.Contains(path, "empty") {
+						break
+					}
 					s.Insert(ast.NewObj(ast.Fun, m))
 				}
 				p.Data = s
@@ -344,8 +347,11 @@ func c18PackageOnce(c *fw.Ctx, id string, srcs map[string]string, withImporter b
 					return p, nil
 				}
 				p := dst.NewObj(dst.Pkg, filepath.Base(path))
-				s := dst.NewScope(nil)
+				s := dst.NewScope(duni)
 				for _, m := range members {
+					if strings.Contains(path, "empty") {
+						break
+					}
 					s.Insert(dst.NewObj(dst.Fun, m))
 				}
 				p.Data = s
@@ -485,6 +491,9 @@ func c18PackageOnce(c *fw.Ctx, id string, srcs map[string]string, withImporter b
 				}
 				as, _ := ao.Data.(*ast.Scope)
 				ds, _ := do.Data.(*dst.Scope)
+				if as != nil && ds != nil && (as.Outer == nil) != (ds.Outer == nil) {
+					viol("decorated-package-imports", fmt.Sprintf("Imports[%s].Data: Outer is nil on one side only", k))
+				}
 				if (as == nil) != (ds == nil) || (as != nil && scopeNames(as) != dscopeNames(ds)) {
 					viol("decorated-package-imports", fmt.Sprintf("Imports[%s].Data (package scope): ast %s, dst %s", k, scopeNames(as), dscopeNames(ds)))
 				}
@@ -622,6 +631,12 @@ func runC18(c *fw.Ctx) {
 				sb.WriteString("import (\n\tal \"x/fmt\"\n\t_ \"x/blank\"\n)\n\n")
 			case 3:
 				sb.WriteString("import \"x/missing\"\n\n")
+			}
+			if g%6 == 5 {
+				// a package that declares no named package-level object (empty package scope)
+				sb.WriteString("import _ \"x/empty\"\n\nfunc init() {\n\tx := 1\n\t_ = x\n}\n\nvar _ = len(\"a\")\n\nfunc (r recv) m() int { return undeclared }\n")
+				srcs[fmt.Sprintf("g%d.go", k)] = sb.String()
+				continue
 			}
 			for j := 0; j < 2+gr.Intn(4); j++ {
 				n := pool[gr.Intn(len(pool))]
